@@ -14,6 +14,7 @@ CONSTANTS MaxObjs,     \* pool size
           NPaths,      \* path mode: number of random behaviours
           EmitAllBelow,  \* transitions leaving a state of level < EmitAllBelow are all exported, deeper ones 1 in EmitOneIn
           EmitOneIn,
+          OpSet,       \* the calls offered (a subset of "new","dicke","set","bind","probs","flip","saveload")
           Emitting
 
 VARIABLES objs,        \* sequence of amplitude vectors (the live objects, in creation order)
@@ -99,7 +100,9 @@ Bind(o, m) ==
             /\ ev' = EvB("bind", o, [NoArgs EXCEPT !.map = m], out, IF out = "ok" THEN Len(objs) + 1 ELSE 0, Subst(vec, m))
 
 Probs(o)    == AllNum(objs[o]) /\ objs' = objs /\ ev' = Ev("probs", o, NoArgs, "ok", o)
-FlipOp(o)   == AllNum(objs[o]) /\ Len(objs) < MaxObjs /\ objs' = Append(objs, Flip(objs[o])) /\ ev' = Ev("flip", o, NoArgs, "ok", Len(objs) + 1)
+\* reversing the qubit order permutes the entries whatever they are: symbolic and mixed states are reversed too, and what comes back
+\* is a wavefunction like any other (it can be bound, assigned to, reversed again)
+FlipOp(o)   == Len(objs) < MaxObjs /\ objs' = Append(objs, Flip(objs[o])) /\ ev' = Ev("flip", o, NoArgs, "ok", Len(objs) + 1)
 SaveLoad(o) == AllNum(objs[o]) /\ Len(objs) < MaxObjs /\ objs' = Append(objs, objs[o]) /\ ev' = Ev("saveload", o, NoArgs, "ok", Len(objs) + 1)
 
 \* the Dicke constructor returns a NEW object every time it is called (checked against the definition by DickeVecsAreDicke below)
@@ -119,9 +122,9 @@ Do(s) == CASE s.op = "new" -> New(s.vec)
            [] s.op = "probs" -> Probs(s.o)
            [] s.op = "flip" -> FlipOp(s.o)
            [] s.op = "saveload" -> SaveLoad(s.o)
-Next == \E s \in Steps : Do(s)
+Next == \E s \in {x \in Steps : x.op \in OpSet} : Do(s)
 Enabled(s) == ENABLED Do(s)
-PathNext == \E o \in {RandomElement({s.op : s \in {x \in Steps : Enabled(x)}})} :
+PathNext == \E o \in {RandomElement({s.op : s \in {x \in Steps : x.op \in OpSet /\ Enabled(x)}})} :
             \E s \in {RandomElement({x \in Steps : x.op = o /\ Enabled(x)})} : Do(s)
 DepthBound == TLCGet("level") <= Depth
 PathView == <<objs, ev.pid, TLCGet("level")>>
@@ -134,6 +137,14 @@ OnlySetMutates == [][\A o \in 1..Len(objs) : (objs'[o] # objs[o]) => (ev'.op = "
 BindNumericIsSameObject == [][(ev'.op = "bind" /\ AllNum(objs[ev'.obj])) => (ev'.res = ev'.obj /\ objs' = objs)]_vars
 ProbsSumToOne == [][ev'.op = "probs" => SumSq(objs[ev'.obj]) = COne]_vars
 FlipTwiceIdentity == \A o \in 1..Len(objs) : AllNum(objs[o]) => Flip(Flip(objs[o])) = objs[o]
+\* reversal commutes with substitution (entry-wise operations): bind-then-reverse = reverse-then-bind, for every map
+\* (a fact about vectors, not about states: checked once, on every initial vector)
+FlipCommutesWithBind == \A v \in {x \in InitVecs : \E k \in 0..6 : 2^k = Len(x)} : \A m \in Maps : Flip(Subst(v, m)) = Subst(Flip(v), m)
+ASSUME FlipCommutesWithBind
+\* the behaviours new -> flip -> any call on the reversed object (an ACTION_CONSTRAINT for a dedicated run; the level is the pre-state's)
+SymFlipOnly == CASE TLCGet("level") = 1 -> ev'.op = "new"
+                 [] TLCGet("level") = 2 -> ev'.op = "flip"
+                 [] OTHER -> ev'.obj = 2
 FlipKeepsNorm == \A o \in 1..Len(objs) : AllNum(objs[o]) => SumSq(Flip(objs[o])) = COne
 
 \* ---- Dicke states: the bit trick of the constructor enumerates exactly the weight-k basis states -----------
